@@ -439,6 +439,9 @@ pub fn update_array_bytes<'a>(
             }
             .map_err(CodecError::from)?;
             output_view.copy_from_slice(chunk_subset_bytes)?;
+            // An update of part of an initialised buffer (not a freshly allocated output)
+            #[cfg(zarrs_verif)]
+            crate::storage::verif_hooks::emit("view.discard", &[chunk_bytes.as_ptr() as u64]);
             Ok(ArrayBytes::new_flen(chunk_bytes))
         }
         (_, _, DataTypeSize::Variable) => Err(CodecError::ExpectedVariableLengthBytes),
